@@ -302,6 +302,16 @@ func (m *Message) getSecretString(ctx context.Context) (string, error) {
 	return m.GetString(ctx)
 }
 
+// getSecretStringWithMaxSize is getSecretString for the size-capped ClassAd reader:
+// the secret counts against the ad's byte budget like any other expression.
+func (m *Message) getSecretStringWithMaxSize(ctx context.Context, maxSize int) (string, error) {
+	if sc, ok := m.stream.(secretCrypto); ok {
+		sc.PrepareCryptoForSecret()
+		defer sc.RestoreCryptoAfterSecret()
+	}
+	return m.GetStringWithMaxSize(ctx, maxSize)
+}
+
 // putSecretExpr writes a private attribute the way C++ putClassAd does on a
 // channel that can encrypt but is not currently encrypting: the SECRET_MARKER
 // expression in the clear (flushed with any preceding buffered expressions), then
@@ -469,7 +479,16 @@ func getClassAdFromMessageWithMaxSize(m *Message, maxSize int, ctx context.Conte
 		// items, one counted expression -- see GetClassAdRawBody). Consume the secret
 		// as the real expression instead of desyncing on the marker.
 		if exprStr == SecretMarker {
-			exprStr, err = m.getSecretString(ctx)
+			if maxSize > 0 {
+				// The secret is part of the ad: it is read against the same budget.
+				remainingBytes := maxSize - totalBytesRead
+				if remainingBytes <= 0 {
+					return nil, fmt.Errorf("ClassAd exceeds maximum size (%d bytes) while reading secret expression %d", maxSize, i)
+				}
+				exprStr, err = m.getSecretStringWithMaxSize(ctx, remainingBytes)
+			} else {
+				exprStr, err = m.getSecretString(ctx)
+			}
 			if err != nil {
 				return nil, fmt.Errorf("failed to read secret expression %d (expected %d): %w", i, numExprs, err)
 			}
